@@ -236,7 +236,64 @@ func (c *Ctx) cod14() {
 				}
 			}
 		}
-		a.done(0, "every conversion to a 16- or 32-bit integer has an operand masked or typed to fit")
+		if a.n > 0 {
+			a.done(0, "every conversion to a 16- or 32-bit integer has an operand masked or typed to fit")
+		}
+	}
+	// the counterpart: arithmetic carried out in a narrow type wraps before
+	// the result is widened (uint16(topicLen)+2 for a topic of 65534 bytes).
+	// All sizes, offsets and counters of the package are computed in int or
+	// uint; an addition, subtraction, multiplication or left shift in an 8-,
+	// 16- or 32-bit type must have operands bounded so that the result fits.
+	narrowArithSeen := false
+	for _, fn := range fns {
+		a := c.acc("COD-14", fn, "no-arithmetic-in-a-narrow-type-that-can-wrap")
+		for _, b := range fn.Blocks {
+			for _, ins := range b.Instrs {
+				bo, ok := ins.(*ssa.BinOp)
+				if !ok {
+					continue
+				}
+				bits, isInt := intBits(bo.Type())
+				if !isInt || bits >= 64 {
+					continue
+				}
+				bx, by := boundedBits(bo.X, 0), boundedBits(bo.Y, 0)
+				fits := true
+				switch bo.Op.String() {
+				case "+", "*", "<<", "-":
+					narrowArithSeen = true
+				}
+				switch bo.Op.String() {
+				case "+":
+					m := bx
+					if by > m {
+						m = by
+					}
+					fits = m+1 <= bits
+				case "*":
+					fits = bx+by <= bits
+				case "<<":
+					k, isK := intConst(bo.Y)
+					fits = isK && k >= 0 && bx+int(k) <= bits
+				case "-":
+					fits = false
+				default:
+					continue
+				}
+				if fits {
+					a.pass()
+				} else {
+					a.failAt(c.P.Pos(bo.Pos()), "%s is computed in %s: with operands of up to %d and %d significant bits the result can wrap around before it is widened — a length or offset at the top of its range (a topic of 65534 or 65535 bytes, an identifier near 0xffff) comes out small, and the slicing or comparison that follows goes wrong", Expr(bo), bo.Type(), bx, by)
+				}
+			}
+		}
+		if a.n > 0 {
+			a.done(0, "sizes, offsets and counters are computed in int/uint; narrow arithmetic is bounded")
+		}
+	}
+	if !narrowArithSeen {
+		c.S.OK("COD-14", "COD-14|package|no-arithmetic-in-a-narrow-type", "", "", "no +, -, * or << is computed in an integer type narrower than 64 bits anywhere in the two packages", true)
 	}
 	c.S.Floor("COD-14", "narrowing integer conversions examined (all widths)", n, 20)
 	c.S.Floor("COD-14", "conversions to 16/32-bit integers judged", wide, 2)
@@ -271,4 +328,31 @@ func onlyEncoded(v ssa.Value, depth int) bool {
 		}
 	}
 	return true
+}
+
+// DumpNarrowArith lists arithmetic carried out in a type narrower than 64 bits (development aid).
+func DumpNarrowArith(w io.Writer, p *load.Program) {
+	c := NewCtx(p, "debug", "quick")
+	fns := append([]*ssa.Function{}, c.funcs...)
+	fns = append(fns, c.testFuncs()...)
+	for _, fn := range fns {
+		for _, b := range fn.Blocks {
+			for _, ins := range b.Instrs {
+				bo, ok := ins.(*ssa.BinOp)
+				if !ok {
+					continue
+				}
+				switch bo.Op.String() {
+				case "+", "-", "*", "<<":
+				default:
+					continue
+				}
+				bits, ok := intBits(bo.Type())
+				if !ok || bits >= 64 {
+					continue
+				}
+				fmt.Fprintf(w, "%-40s %-8s %s  [%d/%d bits] %s\n", load.FuncName(fn), bo.Type(), Expr(bo), boundedBits(bo.X, 0), boundedBits(bo.Y, 0), c.P.Pos(bo.Pos()))
+			}
+		}
+	}
 }
